@@ -150,9 +150,8 @@ func (r *Run) Step(b *BlockSpec) StepResult {
 	}
 	res.Dump = dump
 	if !r.NoModel {
-		if res.ImplOK && b.Height%144 == 0 {
-			b.StakeOrder = StakeOrder(r.D.DBPath, b.Height)
-		}
+		// (no order oracle is passed: since the tie-break fix the payout order is a function of the
+		// stakes and addresses, and the model's canonical order must match it)
 		res.ModelAns = r.M.FeedBlock(b)
 		res.ModelClass = modelClass(res.ModelAns)
 		var md []string
